@@ -66,7 +66,19 @@ def run(ctx):
         st = sts[-1]
         bad = None
         n = 0
-        for q in st.ok_paths():
+
+        def is_ratio_call(e):
+            return e.target is not None and "Integer" in e.target.locals[0]["ty"] and "Result" in e.target.locals[0]["ty"] and e.target.arg_count >= 3
+
+        def wraps_ratio_check(e):
+            # a helper the "query the ratio, compare with maintenance" pair was moved into
+            if is_ratio_call(e):
+                return False
+            try:
+                return any(is_ratio_call(e2) for p2 in ix.ok_paths(e.target) for e2 in p2.events)
+            except Exception:
+                return False
+        for q in splice(ix, st.ok_paths(), wraps_ratio_check):
             # terminal paths only (no further swap) that store a position with non-reset size
             if any(s.reply_on_name() == "Always" for s in em.emitted(q)):
                 continue
